@@ -3,8 +3,11 @@
 //! (stated assumption: no concurrent stealer inside a sequentialised operation).
 use core::cell::{Cell, UnsafeCell};
 
-/// Maximum number of queued items.
+/// Maximum number of queued items (4 with `--cfg ocv_small`).
+#[cfg(not(ocv_small))]
 pub const CAP: usize = 8;
+#[cfg(ocv_small)]
+pub const CAP: usize = 4;
 /// Scheduling-point site id.
 pub const SITE: u32 = 3;
 
